@@ -663,6 +663,13 @@ class Interp(object):
             return acc
         if isinstance(a, Opaque) and isinstance(b, Opaque):
             return self.libs_opaque_eq(a, b)
+        if isinstance(a, SymDict) and isinstance(b, SymDict):
+            if a.overlay.keys or b.overlay.keys:
+                raise Unsupported('== on updated symbolic dicts')
+            k = z3.String('deq_k')
+            return self.mk(z3.ForAll([k], z3.And(z3.Select(a.present, k) == z3.Select(b.present, k),
+                                                 z3.Implies(z3.Select(a.present, k),
+                                                            z3.Select(a.val, k) == z3.Select(b.val, k)))), 'bool')
         if a is b:
             return True
         if isinstance(a, Obj) and isinstance(b, Obj):
